@@ -969,7 +969,41 @@ class FX:
                 else:
                     out[k] = vb
 
+    def _desugar_comp_loop(self, st, env):
+        """`for T in [E for V in X if C]: body` is `for V in X: if C: T = E; body` (likewise under enumerate): a loop over a derived
+        list reads like the loop over the list it is derived from."""
+        it = st.iter
+        enum = isinstance(it, ast.Call) and _is_name(it.func, "enumerate") and len(it.args) == 1 and isinstance(st.target, ast.Tuple) and \
+            len(st.target.elts) == 2
+        src = it.args[0] if enum else it
+        lc = src
+        if isinstance(src, ast.Name) and isinstance(env.get(src.id), (ast.ListComp, ast.GeneratorExp)):
+            lc = env[src.id]
+        if not (isinstance(lc, (ast.ListComp, ast.GeneratorExp)) and len(lc.generators) == 1 and not st.orelse):
+            return None
+        g = lc.generators[0]
+        tgt = st.target.elts[1] if enum else st.target
+        bound = {x.id for x in ast.walk(g.target) if isinstance(x, ast.Name)}
+        body_names = {x.id for b in st.body for x in ast.walk(b) if isinstance(x, ast.Name)} - {x.id for x in ast.walk(tgt) if isinstance(x, ast.Name)}
+        if bound & body_names:
+            return None         # the comprehension variable would capture a name of the body
+        inner = [ast.Assign(targets=[copy.deepcopy(tgt)], value=copy.deepcopy(lc.elt))] + list(st.body)
+        for c in reversed(g.ifs):
+            inner = [ast.If(test=copy.deepcopy(c), body=inner, orelse=[])]
+        if enum:
+            if g.ifs:
+                return None     # positions in the filtered list are not positions in the source list
+            new = ast.For(target=ast.Tuple(elts=[copy.deepcopy(st.target.elts[0]), copy.deepcopy(g.target)], ctx=ast.Store()),
+                          iter=ast.Call(func=ast.Name(id="enumerate", ctx=ast.Load()), args=[copy.deepcopy(g.iter)], keywords=[]),
+                          body=inner, orelse=[])
+        else:
+            new = ast.For(target=copy.deepcopy(g.target), iter=copy.deepcopy(g.iter), body=inner, orelse=[])
+        return ast.fix_missing_locations(ast.copy_location(new, st))
+
     def _x_For(self, st, env):
+        ds = self._desugar_comp_loop(st, env)
+        if ds is not None:
+            return self._x_For(ds, env)
         it = st.iter
         # unroll small literal iterables
         lit = self._literal_iter(it, env)
@@ -1724,6 +1758,8 @@ class FX:
                     v = self._value(call.args[-1], env)
                     if f.attr == "extend" and isinstance(v, PyList):
                         cont.items.extend(v.items)
+                    elif f.attr == "insert" and len(call.args) == 2 and isinstance(call.args[0], ast.Constant) and call.args[0].value == 0:
+                        cont.items.insert(0, (list(self.loops), list(self.pyguards), v))
                     else:
                         cont.items.append((list(self.loops), list(self.pyguards), v))
                 return
@@ -2351,6 +2387,9 @@ class _Canon(ast.NodeTransformer):
             elts = []
             for loops, pg, x in v.items:
                 x = copy.deepcopy(x)
+                # conditions / loops that also enclose the place of use say nothing about this element
+                pg = [g for g in pg if g not in self.fx.pyguards]
+                loops = [l for l in loops if l not in self.fx.loops]
                 if loops or pg:
                     txt = "; ".join(f"{a} in {b}" for a, b in loops)
                     if pg:
